@@ -63,6 +63,7 @@ def run(ctx):
     jobs = []   # (input index, mode, seed)
     for idx, (k, fl, b, lab, hb) in enumerate(inputs):
         jobs += [(idx, 0, 0), (idx, 1, 0), (idx, 2, 0), (idx, 3, rng.randrange(1 << 20)), (idx, 3, rng.randrange(1 << 20))]
+        if k <= 4: jobs += [(idx, 16 + rng.choice([0, 1, 3]), rng.randrange(1 << 20))]      # after partial use and re-initialisation of the same handle
         n = len(b)
         offs = range(1, n) if n <= (260 if ctx.quick() else 1200) else sorted(rng.sample(range(1, n), 60))
         jobs += [(idx, 4, o) for o in offs]
